@@ -872,17 +872,17 @@ HANG_QUICK = [
 ONE_FREE = ["q-open", "q-last", "q-close", "q-close-last", "bare", "key"]
 HANG_THOROUGH = [
     (["name", "filename", "other", "ctype"][(i + j) % 4], shape, group, (40, 200), ["cl", "chunked"][(i + j) % 2],
-     (i + j) % 3 == 2, 100)
+     (i + j) % 3 == 2, 120)
     for i, shape in enumerate(ONE_FREE) for j, group in enumerate(("plain+marks", "pairs"))
 ] + [("filename", "q-open", "semis", (40, 200), "cl", False, 50),
-     ("other", "q-last", "semi", (96,), "cl", False, 140), ("name", "bare", "semi", (96,), "cl", False, 140),
-     ("name", "q-both", "plain", (96,), "cl", False, 200), ("filename", "q-inner", "plain", (96,), "cl", False, 200),
-     ("other", "bare-last", "plain", (96,), "chunked", False, 200)]
+     ("other", "q-last", "semi", (96,), "cl", False, 160), ("name", "bare", "semi", (96,), "cl", False, 160),
+     ("name", "q-both", "plain", (96,), "cl", False, 215), ("filename", "q-inner", "plain", (96,), "cl", False, 60),
+     ("other", "bare-last", "plain", (96,), "chunked", False, 60)]
 # (template, pump unit group, run lengths, handler, CPU seconds)
 HANG_CTYPE_QUICK = [("quoted", "ct", (60, 150), "forms", 19), ("before-key", "ct-plain", (60,), "forms", 11),
                     ("no-key-marks", "ct", (60, 150), "forms", 12)]
-HANG_CTYPE_THOROUGH = [("value-end", "ct", (60, 150), "forms", 13), ("after-value", "ct", (60, 150), "files", 10), ("before-key", "ct-marks", (40, 150), "forms", 120),
-                       ("no-key", "ct-marks", (40, 150), "forms", 120), ("both", "ct-two", (96,), "forms", 150),
+HANG_CTYPE_THOROUGH = [("value-end", "ct", (60, 150), "forms", 13), ("after-value", "ct", (60, 150), "files", 10), ("before-key", "ct-marks", (40, 150), "forms", 70),
+                       ("no-key", "ct-marks", (40, 150), "forms", 70), ("both", "ct-two", (96,), "forms", 175),
                        ("empty-value", "ct", (60, 150), "forms", 12)]
 # (pump unit group, run lengths, handler, framing, one read, CPU seconds)
 HANG_BLOCK_QUICK = [("block-few", (100,), "forms", "cl", True, 30)]
